@@ -490,10 +490,13 @@ class CodeGenMapper(Mapper[ImplementedResult, Never, [CodeGenState]]):
 
         reductions = ReductionCollector()(il_expr)
 
-        var_to_reduction = {
-            var_name: redn
-            for redn in reductions
-            for var_name in redn.bounds}
+        # (sorted by reduction variable: *reductions* is a frozenset, and the
+        # order of this dict decides the order of the generated instructions)
+        var_to_reduction = dict(sorted(
+            ((var_name, redn)
+             for redn in reductions
+             for var_name in redn.bounds),
+            key=lambda name_and_redn: name_and_redn[0]))
 
         var_to_reduction_unique_name: Mapping[str, str] = {}
         for var_name in expr.var_to_reduction_descr:
